@@ -35,6 +35,8 @@ def run(ctx):
     rd = [b for b in load if b.name.startswith('asefile::reader::') or b.name in ('asefile::parse::read_aseprite', 'asefile::parse::parse_frame',
                                                                                  'asefile::parse::Chunk::read', 'asefile::parse::Chunk::read_all',
                                                                                  'asefile::parse::check_chunk_bytes')]
+    # (and the closures written in them: `read(..).map_err(|e| .. chunks.last().unwrap() ..)`, seed C13-r)
+    rd = rd + [c_ for b_ in list(rd) for c_ in fx.closure_cone(b_) if c_ not in rd]
     nps = 0
     for s_ in _p.inventory(fx, rd):
         if s_.kind.startswith('alloc:'):
